@@ -4,6 +4,7 @@ import (
 	"bytes"
 	"fmt"
 	"math/rand"
+	"regexp"
 	"strings"
 	"time"
 )
@@ -122,18 +123,23 @@ func renderVariant(r *rand.Rand, ts []vtok, kinds map[string]int) string {
 		text := t.text
 		switch t.kind {
 		case "acc":
-			if r.Intn(2) == 0 {
-				if text == "#" {
-					text = "♯"
-				} else {
-					text = "♭"
-				}
-				kinds["unicode-accidental"]++
+			// any of the spellings the lexer accepts as this sign (found by probing the real lexer)
+			alts := accSpellings[text]
+			if len(alts) > 1 && r.Intn(2) == 0 {
+				text = alts[1+r.Intn(len(alts)-1)]
+				kinds["other-accidental-sign"]++
 			}
 		case "num":
 			if r.Intn(3) == 0 {
-				text = strings.Repeat("0", 1+r.Intn(3)) + text
+				n := 1 + r.Intn(3)
+				if r.Intn(6) == 0 { // more digits than any machine word has
+					n = []int{18, 19, 20, 21, 25, 40, 100, 1000}[r.Intn(8)]
+				}
+				text = strings.Repeat("0", n) + text
 				kinds["leading-zeros"]++
+				if n > 17 {
+					kinds["leading-zeros-long"]++
+				}
 			}
 		case "sym":
 			if (i == 0 || ts[i-1].kind != "under") && r.Intn(3) == 0 {
@@ -174,10 +180,59 @@ func renderVariant(r *rand.Rand, ts []vtok, kinds map[string]int) string {
 	return b.String()
 }
 
+// the spellings of `#` and `b`: every rune of a broad candidate set that the real lexer turns into the same token as
+// `#` (or `b`) after a root.  On the code as it stands these are `#`, `♯` and `b`, `♭`.
+var accSpellings = map[string][]string{"#": {"#"}, "b": {"b"}}
+
+var accTypeRe = regexp.MustCompile(`(?s)accidental:\s+type: (\d+)\s+value: (\S+)`)
+
+func discoverAccidentals(s *stream) {
+	typeOf := func(txt string) (string, string) {
+		res := runCrd([]byte(txt), 10*time.Second, "text", "parse")
+		if res.class() != "ok" {
+			return "", ""
+		}
+		m := accTypeRe.FindSubmatch(res.stdout)
+		if m == nil {
+			return "", ""
+		}
+		return string(m[1]), strings.Trim(string(m[2]), `"'`)
+	}
+	sharp, _ := typeOf("C#[1]")
+	flat, _ := typeOf("Cb[1]")
+	var cands []rune
+	for _, rg := range [][2]rune{{0x21, 0x7e}, {0xa0, 0xff}, {0x2000, 0x206f}, {0x2600, 0x26ff}, {0xff01, 0xff5e}, {0x1d100, 0x1d1ff}, {0x300, 0x36f}, {0x2b0, 0x2ff}} {
+		for c := rg[0]; c <= rg[1]; c++ {
+			cands = append(cands, c)
+		}
+	}
+	found := make([]string, len(cands))
+	parallel(len(cands), func(i int) {
+		t, v := typeOf("C" + string(cands[i]) + "[1]")
+		if t != "" && v == string(cands[i]) {
+			found[i] = t
+		}
+	})
+	for i, t := range found {
+		c := string(cands[i])
+		switch {
+		case t == "" || c == "#" || c == "b":
+		case t == sharp:
+			accSpellings["#"] = append(accSpellings["#"], c)
+		case t == flat:
+			accSpellings["b"] = append(accSpellings["b"], c)
+		}
+	}
+	s.stats["accidental-candidates-probed"] = len(cands)
+	s.stats["sharp-spellings"] = len(accSpellings["#"])
+	s.stats["flat-spellings"] = len(accSpellings["b"])
+}
+
 func streamVariants() {
 	s, done := openStream("variants")
 	defer done()
 	r := rng("variants")
+	discoverAccidentals(s)
 	type pair struct {
 		mode, key string
 		a, b      string
@@ -194,6 +249,20 @@ func streamVariants() {
 			p.key = keys28[r.Intn(28)]
 		}
 		pairs = append(pairs, p)
+	}
+	// every accepted spelling of each sign, in both notations, on a root and on a bass
+	for _, base := range []string{"#", "b"} {
+		for _, alt := range accSpellings[base][1:] {
+			pairs = append(pairs, pair{mode: "syllable", a: "C" + base + "m[1] D/F" + base + "[1]", b: "C" + alt + "m[1] D/F" + alt + "[1]"},
+				pair{mode: "syllable", key: "Eb", a: "F" + base + "[1/2]", b: "F" + alt + "[1/2]"},
+				pair{mode: "degree", a: "4" + base + "[1] 1/3" + base + "[1]", b: "4" + alt + "[1] 1/3" + alt + "[1]"})
+		}
+	}
+	// durations padded beyond the width of a machine word
+	for _, n := range []int{19, 20, 21, 22, 64, 300} {
+		z := strings.Repeat("0", n)
+		pairs = append(pairs, pair{mode: "syllable", a: "C[1/4] G_7[3,1/2]", b: "C[" + z + "1/" + z + "4] G_7[" + z + "3," + z + "1/" + z + "2]"},
+			pair{mode: "degree", a: "1[1/4]{bpm=120}", b: "1[" + z + "1/" + z + "4]{bpm=120}"})
 	}
 	// the known finding D16 is exercised on purpose so that its matching is tested
 	pairs = append(pairs, pair{mode: "syllable", a: "C_m[1]", b: "C_;x\nm[1]"})
